@@ -254,7 +254,7 @@ func (it *Interp) globalCell(g *ssa.Global) *ICell {
 		})
 	})
 	if mutable || g.Pkg == nil {
-		cell.V = IVal{K: ivOpaque, S: "mutable global " + g.Name()}
+		cell.V = IVal{K: ivOpaque, S: "mutable global " + GN(g)}
 		cell.Elems = nil
 		return cell
 	}
